@@ -210,6 +210,19 @@ let handle line =
       let t = build 0 in
       let (h, _) = th o (field_dt t) in
       tok_of_str (show o h) ^ "\t" ^ (if field_required (bool_of_tok force) t then "1" else "0")
+  | ["constr"; mn; mx; xmn; xmx; mu; v] ->
+      (* bounds in half units; ~ = absent; exclusive: ~ | t | f | number *)
+      let oz t = if t = "~" then None else Some (z_of_int (int_of_string t)) in
+      let ex t = if t = "~" then XNone else if t = "t" then XBool true else if t = "f" then XBool false else XNum (z_of_int (int_of_string t)) in
+      let c = { c_min = oz mn; c_max = oz mx; c_xmin = ex xmn; c_xmax = ex xmx; c_mult = oz mu } in
+      (match cnormalize c with
+       | None -> "KEYERROR"
+       | Some c' ->
+           let k = ctranslate c' in
+           let so = function None -> "~" | Some z -> string_of_int (int_of_z z) in
+           String.concat "," [so k.k_ge; so k.k_le; so k.k_gt; so k.k_lt; so k.k_mult] ^ "\t" ^
+           (if sat_model k (z_of_int (int_of_string v)) then "1" else "0") ^ "\t" ^
+           (if sat_schema c (z_of_int (int_of_string v)) then "1" else "0"))
   | ["c2s"; s] -> tok_of_str (camel_to_snake u0 (str_of_tok s))
   | ["s2uc"; d; s] -> tok_of_str (s2uc u0 (n_of_int (int_of_string d)) (str_of_tok s))
   | _ -> "BADREQ"
